@@ -47,6 +47,7 @@ type Op struct {
 	Source string      `json:"source,omitempty"`
 	Script Script      `json:"script,omitempty"`
 	R      int         `json:"r,omitempty"`
+	T      int64       `json:"t,omitempty"`  // clock op: the simulated instant (unix seconds); repeat op: clock advance per repetition (seconds)
 	Note   string      `json:"note,omitempty"`
 }
 
